@@ -9,7 +9,10 @@ git -C /repo apply "$ROOT/seeded/$S/patch.diff" || exit 2
 trap 'git -C /repo checkout -- .' EXIT
 for P in "$@"; do
   t0=$(date +%s)
+  # the evidence file describes the last run on the unchanged tree: keep it
+  [ -f "$ROOT/evidence/$P.json" ] && cp "$ROOT/evidence/$P.json" "$ROOT/build/evidence-$P.keep"
   out=$("$ROOT/check" "$P" "$T" 2>&1); rc=$?
+  [ -f "$ROOT/build/evidence-$P.keep" ] && mv "$ROOT/build/evidence-$P.keep" "$ROOT/evidence/$P.json"
   t1=$(date +%s)
   if [ $rc -eq 1 ]; then r=caught; elif [ $rc -eq 0 ]; then r=missed; else r="broken(rc=$rc)"; fi
   echo "seed $S: check $P $T: $r in $((t1-t0))s :: $(echo "$out" | grep -E "^VIOLATION|CHECK-BROKEN|BUILD-FAILED" | head -2 | tr '\n' ' ')"
